@@ -145,10 +145,11 @@ def xz_lzma2_chunks(data):
     return out
 
 
-def classify_lzma2_overrun(H, coder, data):
+def classify_lzma2_overrun(H, coder, data, pair=()):
     """True iff `data`, fed to the single-threaded twin of `coder` one byte at a time, is rejected with LZMA_DATA_ERROR exactly when the
     first byte after the compressed data of an LZMA2 LZMA chunk is consumed while that chunk's uncompressed size has not been reached,
-    i.e. the error is `in_used > coder->compressed_size` in lzma2_decode()."""
+    i.e. the error is `in_used > coder->compressed_size` in lzma2_decode(). `pair` = the two differing results: if one of them
+    stopped with less output than the chunk's uncompressed size, the decoder was still inside the chunk."""
     kind = coder.split(":")[0]
     base = 0   # offset of the coder's total_in origin inside `data`
     if kind in ("sd", "auto", "sdmt"):
@@ -180,7 +181,8 @@ def classify_lzma2_overrun(H, coder, data):
             # LZMA chunk only the control values 0x03..0x7F are rejected; and before the chunk's uncompressed size is reached the
             # decoder is still inside this chunk anyway.
             nxt = data[e + base] if 0 <= e + base < len(data) else 0
-            if r["bcj"] or r["out"] < ucum or not (3 <= nxt <= 0x7F):
+            outs = [r["out"]] + [q["out"] for q in pair if q and q["ret"] == 9]
+            if r["bcj"] or min(outs) < ucum or not (3 <= nxt <= 0x7F):
                 return True
     return False
 
@@ -924,11 +926,16 @@ def oracle(ctx, H):
                 sl = dm.group(1)
                 runs_ = [(s["coder"], s["act"], "W"), (s["coder"], s["act"], sl)]
                 differs, res = confirm(H, s["data"], s["cmp"], runs_)
+                seen = parse_results(dm.group(2))
+                if not differs and seen and seen[0]["ret"] == 99 and kind in ("sdmt", "semt"):
+                    # a threaded coder made no progress for 30 s of wall time once, and does on the second try: machine load
+                    ctx.count("transient:mt-no-progress-30s-not-reproduced")
+                    break
                 note = "" if differs else "seen inside a sweep that reuses one lzma_stream; not reproduced with fresh streams"
                 if not differs:
                     res = [ref[0]["text"], dm.group(2)]
                 key = None
-                if ref[0]["ret"] == 9 and classify_lzma2_overrun(H, s["coder"], s["data"]):
+                if ref[0]["ret"] == 9 and classify_lzma2_overrun(H, s["coder"], s["data"], [parse_results(x)[0] if parse_results(x) else None for x in res]):
                     key = KEY_OVERRUN
                     ctx.count("finding:lzma2-chunk-overrun")
                     note += " [LZMA2 chunk overrun: lzma2_decode() lets the LZMA decoder read past the chunk's compressed size and reports the error afterwards]"
